@@ -493,6 +493,9 @@ fn handle_need(
 
                 let version: CrsqlDbVersion = row.get(0)?;
 
+                #[cfg(feature = "verif")]
+                klukai_types::verif::gate_blocking("need-step");
+
                 unprocessed.remove(version..=version);
 
                 let last_seq: CrsqlSeq = row.get(1)?;
@@ -532,6 +535,8 @@ fn handle_need(
             // now process the last unprocessed in case we have partials
             for versions in unprocessed {
                 for version in versions {
+                    #[cfg(feature = "verif")]
+                    klukai_types::verif::gate_blocking("need-step");
                     let (in_gaps, buffered): (bool, bool) = tx
                         .prepare_cached(
                             "
@@ -670,6 +675,9 @@ fn handle_need(
                 }
                 None => {
                     trace!(%version, ?seqs, "no rows in crsql_changes, checking partials and gaps...");
+
+                    #[cfg(feature = "verif")]
+                    klukai_types::verif::gate_blocking("need-step");
 
                     let (in_gaps, buffered): (bool, bool) = tx
                         .prepare_cached(
